@@ -7,6 +7,7 @@ from vf.props import synthgen
 class C02(Property):
     id = 'C02'
     number = 2
+    fuzz_targets = {'fuzz_segments': 30000}      # atheris campaign in the thorough tier (crashes are replayed through run())
     technique = ("generated-input search (bounded-exhaustive (capacity, L) window + Hypothesis record sequences "
                  "and file specifications); oracle = reassembly by an independent reader compared with the bodies "
                  "given to the writer (synthetic) or reported by the guarded lr-tap (end-to-end)")
